@@ -123,8 +123,20 @@ theorem derived_outputs_runner_whitelist (m : Model α) (d : RunData α) (wl : L
   simp only [h1, h2, if_true, Bool.false_eq_true, if_false]
   rfl
 
+
+/-- `build_computed_value_output` -/
+theorem computed_value_output_eq (m : Model α) (d : RunData α) (done : List (String × List α)) (name : String) :
+    evalRequest m d done (.cv name) = computed_value_output d.computed name := by
+  unfold evalRequest computed_value_output
+  rfl
+
+/-- the inputs a function output reads are the series of its sources, in the listed order -/
+theorem function_output_inputs_eq (done : List (String × List α)) (sources : List String) :
+    function_output_inputs done sources = sources.mapM (alookup done) := rfl
+
 end
 
+#print axioms computed_value_output_eq
 #print axioms derived_outputs_runner_eq
 #print axioms derived_outputs_runner_whitelist
 
